@@ -24,14 +24,14 @@ Ev(e) == l <= Len(Rec) /\ Rec[l].ev = e /\ l' = l + 1
 TInit == Init /\ l = 1
 TReset == /\ Ev("reset") /\ UNCHANGED <<bad, dvars>>
           /\ cnt' = Zero /\ msgs' = Empty /\ mwhere' = [x \in {} |-> <<"", 0>>] /\ run' = Empty /\ sess' = Empty /\ job' = Empty /\ task' = Empty
-          /\ creq' = {} /\ cached' = Zero /\ recd' = {} /\ execs' = {}
+          /\ creq' = {} /\ cached' = Zero /\ recd' = {} /\ execs' = {} /\ tend' = [x \in {} |-> 0]
 \* a process that serves a store another process wrote before it (a restarted `rip serve`): the stream is known
 \* to hold n frames already; the recorder of the earlier process has the guards of those
 TBase == /\ Ev("base") /\ LET b == Rec[l] IN
             /\ cnt' = Put(cnt, b.sk \o ":" \o b.s, b.n)
             /\ sess' = IF b.sk = "session" THEN Put(sess, b.s, "open") ELSE sess
             /\ task' = IF b.sk = "task" THEN Put(task, b.s, "spawned") ELSE task
-         /\ UNCHANGED <<msgs, mwhere, run, job, creq, cached, recd, execs, bad, dvars>>
+         /\ UNCHANGED <<msgs, mwhere, run, job, creq, cached, recd, execs, tend, bad, dvars>>
 TFrame == Ev("f") /\ Frame(Rec[l], l) /\ UNCHANGED dvars
 TCache == Ev("c") /\ CacheAppend(Rec[l].s, Rec[l].q, l) /\ UNCHANGED dvars
 TRec == Ev("rec") /\ Recorded(Rec[l].s, Rec[l].q, l) /\ UNCHANGED dvars
